@@ -5,6 +5,9 @@ cd /repo || exit 2
 if [ -n "$(git status --porcelain --untracked-files=no)" ]; then echo "/repo not clean"; exit 2; fi
 git show "$C" | git apply -R || { echo "$C: reverse patch does not apply"; exit 2; }
 cd /verif
+# the evidence directory describes the unchanged tree: a run against a modified tree must not overwrite it
+SAVE=$(mktemp -d /tmp/verif-evidence.XXXXXX); cp evidence/*.json "$SAVE"/ 2>/dev/null
 OUT=$(./check "$PROP" "$TIER" 2>&1); CODE=$?
+cp "$SAVE"/*.json evidence/ 2>/dev/null; rm -rf "$SAVE"
 git -C /repo checkout -- .
 echo "revert $C vs $PROP $TIER: exit=$CODE $(echo "$OUT" | grep -c '^VIOLATION') violation(s): $(echo "$OUT" | grep '^  rule=' | sed 's/.*sig=//' | sort -u | head -3 | tr '\n' ';' | cut -c1-260)"
